@@ -72,7 +72,7 @@ fn desc(bits: &[bool], w: usize) -> Value {
 
 pub fn run(ctx: &Ctx) -> i32 {
     // 1. all w x h arrays with a dark top-left module, w*h <= limit
-    let limit = ctx.tier.pick(20usize, 25);
+    let limit = ctx.tier.pick(22usize, 25);
     let mut chunks: Vec<(usize, usize, u64, u64)> = Vec::new();
     for w in 1..=limit {
         for h in 1..=limit / w {
